@@ -761,14 +761,16 @@ example : Canonical (exM.scale 2) ∧ Canonical exM.negate :=
 /-- [F] (commutative ring) `symv` on a canonical square matrix with vectors of length `n`
 does not panic and returns `b·y + a·(A + Aᵀ − diag A)·x`: the matrix applied is
 `S i j = A i i` on the diagonal and `A i j + A j i` off it — for an upper-triangular `A`
-this is the symmetric matrix whose upper triangle `A` holds. -/
-theorem symv_spec [CommRing α] (A : Csc α) (y x : Array α) (a b : α)
+this is the symmetric matrix whose upper triangle `A` holds.  (Both prologues — `y` filled
+with zeros for `b == 0`, since /repo 1706c1f, and `y` scaled otherwise — give `b·y` in exact
+arithmetic; at `f64` they differ when `y` holds NaN/Inf: `symv_beta_zero_ignores_y`.) -/
+theorem symv_spec [CommRing α] [DecidableEq α] (A : Csc α) (y x : Array α) (a b : α)
     (hA : Canonical A) (hsq : A.m = A.n) (hx : x.size = A.n) (hy : y.size = A.n) :
     ∃ y', A.symv y x a b = .ok y' ∧ y'.size = A.n ∧
       ∀ i, i < A.n → y'[i]? = some (b * y.getD i 0 + a * ∑ j ∈ Finset.range A.n,
         (if i = j then A.toDense i i else A.toDense i j + A.toDense j i) * x.getD j 0) := by
-  have hsz : (Vec.scale y b).size = A.n := by simp [Vec.scale, hy]
-  obtain ⟨y', h1, h2, h3⟩ := scatter_spec (fun yi t => yi + t) (Vec.scale y b)
+  have hsz : (symvB b y).size = A.n := by rw [symvB_size, hy]
+  obtain ⟨y', h1, h2, h3⟩ := scatter_spec (fun yi t => yi + t) (symvB b y)
     (symvTerms A x a).flatten.flatten
     (fun t ht => by rw [hsz]; exact symvTerms_bound A x a hA hsq t ht)
   refine ⟨y', ?_, by rw [h2, hsz], fun i hi => ?_⟩
@@ -776,11 +778,32 @@ theorem symv_spec [CommRing α] (A : Csc α) (y x : Array α) (a b : α)
     simp only [hx, hsz, hsq, bne_self_eq_false, Bool.false_eq_true, ↓reduceIte,
       symv_mapM_eq A x a hA hsq hx]
     exact h1
-  · have : (Vec.scale y b)[i]? = some (b * y.getD i 0) := by
-      have hi' : i < y.size := by omega
-      simp [Vec.scale, Array.getD_eq_getD_getElem?, Array.getElem?_eq_getElem hi', mul_comm]
+  · have : (symvB b y)[i]? = some (b * y.getD i 0) := symvB_get b y i (by omega)
     rw [h3 i (by omega), this, Option.map_some, foldl_add_eq, symvTerms_sum A x a hA hsq i hi]
     simp only [toDense_eq_sum_colVals]
+
+/-- [S] `symv` with `b = 0` does not read `y` (since /repo 1706c1f): the result depends on
+`y` only through its length — for every scalar type, `Float` included, whatever `y` holds
+(NaN, ±∞ from an earlier solve).  Before the fix (`Csc.symvOld`: `y.scale(0)`) a NaN in `y`
+survived, see the example below. -/
+theorem symv_beta_zero_ignores_y [Add α] [Sub α] [Mul α] [Neg α] [BEq α] [OfNat α 0] [OfNat α 1]
+    (A : Csc α) (y y' x : Array α) (a b : α) (hb : (b == 0) = true) (hlen : y.size = y'.size) :
+    A.symv y x a b = A.symv y' x a b := by
+  unfold symv
+  rw [symvB_zero_congr b y y' hb hlen]
+
+/-- non-vacuity of `symv_beta_zero_ignores_y` at `Float`, and the defect it repairs, shown on
+the prologue (the only part of `symv` that changed): with `b = 0` and a NaN in `y` the current
+prologue `symvB` yields zeros, the pre-fix prologue `y.scale(0)` of `symvOld` keeps the NaN
+(`NaN * 0 = NaN`), which the scattered additions then carry into the result. -/
+example :
+    (⟨2, 2, #[0, 1, 2], #[0, 1], #[2.0, 3.0]⟩ : Csc Float).symv #[0.0 / 0.0, 1.0] #[1.0, 1.0] 1.0 0.0 =
+      (⟨2, 2, #[0, 1, 2], #[0, 1], #[2.0, 3.0]⟩ : Csc Float).symv #[7.0, 7.0] #[1.0, 1.0] 1.0 0.0 ∧
+    -- entry of the pre-fix prologue `y.scale(0)` for `yᵢ = NaN`, and of the current one (literal 0)
+    FloatLike.isNaN ((0.0 / 0.0 : Float) * 0.0) = true ∧ FloatLike.isNaN (0 : Float) = false ∧
+    (∀ y : Array Float, symvB (0.0 : Float) y = y.map (fun _ => 0)) :=
+  ⟨symv_beta_zero_ignores_y _ _ _ _ _ _ (by decide) (by simp), by decide, by decide,
+   fun y => by unfold symvB; rw [if_pos (by decide)]⟩
 
 /-- non-vacuity of `symv_spec` (upper triangle of `exM`) -/
 example : ∃ y', (⟨3, 3, #[0, 1, 2, 4], #[0, 1, 0, 2], #[1, 2, 4, 5]⟩ : Csc Int).symv
